@@ -70,6 +70,12 @@ BOUNDED_FILES = {
     'comment.rs': 'comment text of bounded length',
 }
 
+# One timeout for every quick harness (=> one `cargo kani` invocation per
+# check).  The slowest quick harness on the unchanged tree takes ~250 s under
+# full parallel load; everything that needed more was moved to the thorough
+# tier.  A harness that still hits the limit is reported NOT-DECIDED.
+QUICK_TIMEOUT = 900
+
 # per-harness overrides (matched by regex on the short harness name)
 OVERRIDES = [
     # (regex, dict)
@@ -77,16 +83,28 @@ OVERRIDES = [
     (r'^c01_long_indent_contract_enumerated$', dict(bounded='every concrete length 81..=160', tier='thorough', timeout=1800)),
     (r'^c01_get_indent_contract$', dict(bounded='len <= 160; modular in long_indent, whose contract is checked for sampled/enumerated lengths only')),
     (r'^c28_get_list_shape$', dict(bounded='lists of at most 2 elements')),
-    (r'^c14_operator_and_or_', dict(bounded='left operand one representative per value kind; right operand true / null / number')),
-    (r'^c11_operator_(plus|minus)_', dict(bounded='11 representative ordered unit pairs; right magnitude 3; left magnitude all finite doubles up to 1e9')),
-    (r'^c12_operator_cmp', dict(bounded='unit px only')),
+    (r'^c13_ordermap_(remove|eq_order_insensitive|eq_detects_difference)_n\d', dict(bounded='one harness per concrete map size 0..=3 (and per key permutation for ==); key type u8 with == modulo 4')),
+    # Operator::eval takes two css::Value by value: the drop glue of every
+    # constructor and the format! arms make CBMC exceed 300 s / 10 GB for
+    # every one of these (never completed so far).  They are kept as
+    # thorough-tier ATTEMPTS: run, reported, never counted as proved.
+    (r'^c14_operator_and_or_', dict(bounded='left operand one representative per value kind; right operand true / null / number',
+                                    kind='attempt', tier='thorough', timeout=900)),
+    (r'^c11_operator_(plus|minus)_', dict(bounded='11 representative ordered unit pairs; right magnitude 3; left magnitude all finite doubles up to 1e9',
+                                          kind='attempt', tier='thorough', timeout=900)),
+    (r'^c12_operator_cmp', dict(bounded='unit px only', kind='attempt', tier='thorough', timeout=900)),
     (r'^c11_numeric_cmp_', dict(bounded='13 representative ordered unit pairs, probe magnitudes 1 and 3')),
     (r'^c11_numeric_unitless_vs_percent', dict(bounded='concrete probe values')),
     (r'^c31_roundtrip_', dict(kind='attempt', tier='thorough', timeout=1800)),
     (r'^c31_rgba_to_hwba_in_range$', dict(kind='attempt', tier='thorough', timeout=1800)),
     (r'^c31_rgba_grey_to_hsla$', dict(kind='attempt', tier='thorough', timeout=1800)),
     (r'^c31_hwba_new_in_range$', dict(kind='attempt', tier='thorough', timeout=1800)),
-    (r'^c12_rgba_cmp_antisymmetric$', dict(timeout=900)),
+    # did not finish in 300 s on the unchanged tree (measured twice, -j 12/14):
+    # thorough-tier attempts, reported but never counted as proved
+    (r'^c12_color_hsla_cmp_antisymmetric$', dict(kind='attempt', tier='thorough', timeout=1800)),
+    (r'^c12_number_trichotomy$', dict(kind='attempt', tier='thorough', timeout=1800)),
+    (r'^c12_value_eq_color_color$', dict(kind='attempt', tier='thorough', timeout=1800)),
+    (r'^c28_get_list_shape$', dict(kind='attempt', tier='thorough', timeout=1800)),
 ]
 
 # harnesses whose obligation also carries another property
@@ -100,6 +118,20 @@ EXTRA_PROPS = [
     (r'^c12_number_', ['C11']),
     (r'^c31_max_min_largest|^c31_rgba_to_hsla|^c31_hsla_to_rgba', ['C32']),
 ]
+
+# assumptions specific to a harness file (stubs = assumed contracts), merged
+# into the evidence of every property the file serves
+DEG_MOD = ('ASSUMED, UNCHECKED contract of colors::hsla::deg_mod (the only user of f64 %): CBMC 6.11 does not model f64 % '
+           'and Verus has no float arithmetic, so every call site sees kani_verif::deg_mod_by_contract instead of the body '
+           '(identity on [0,360), v-360 on [360,720), 0 at 720, v+360 folded to 0 on [-360,0), "some angle in [0,360)" for any '
+           'other finite v, NaN otherwise)')
+FILE_ASSUMPTIONS = {
+    'colors.rs': [DEG_MOD], 'convert.rs': [DEG_MOD], 'hsla.rs': [DEG_MOD], 'hwba.rs': [DEG_MOD],
+    'list.rs': ['std::fmt::format stubbed to return an empty String in c28_index_of (error TEXT unchecked, error PRESENCE checked)'],
+    'cssbuf.rs': ['format::long_indent replaced at CssBuf call sites by its contract (long_indent_by_contract); the contract itself is '
+                  'checked by c01_long_indent_contract_* for sampled (quick) / enumerated 81..=160 (thorough) lengths only'],
+    'format.rs': ['format::long_indent replaced in c01_get_indent_contract by its contract; see c01_long_indent_contract_*'],
+}
 
 _h_re = re.compile(r'^\s*fn\s+((?:c\d\d|cover|canary)_[A-Za-z0-9_]+)\s*\(\s*\)', re.M)
 _per_style_re = re.compile(r'^per_style!\((\w+),\s*(\w+),\s*(\w+),\s*(\w+)\);', re.M)
@@ -145,7 +177,7 @@ def discover(kani_dir=KANI_DIR):
             info = FILES[fn]
             d = dict(short=n, full=info['module'] + '::' + n, file=fn, unit=info['unit'],
                      src=info['src'], functions=info['functions'], kind='law', tier='quick',
-                     timeout=300, bounded=BOUNDED_FILES.get(fn))
+                     timeout=QUICK_TIMEOUT, bounded=BOUNDED_FILES.get(fn))
             if n.startswith('cover_'):
                 d['kind'] = 'cover'
                 d['props'] = []
